@@ -62,6 +62,16 @@ class AArr:
         return f"AArr{self.shape}"
 
 
+class AFunc:
+    """A lambda / nested function value with its defining environment."""
+
+    def __init__(self, node, env, owner):
+        self.node, self.env, self.owner = node, env, owner
+
+    def __repr__(self):
+        return "AFunc"
+
+
 class AIdx(AArr):
     """An array of integer indices (np.arange, argsort ...): as a subscript
     it is advanced indexing, not a mask."""
@@ -443,7 +453,8 @@ class Interp:
                 for n in t.body:
                     if isinstance(n, ast.FunctionDef) and n.name in (
                             "zeros", "ones", "identity", "number", "pi",
-                            "array_like", "guess_literal_ring", "unit_imag"):
+                            "array_like", "guess_literal_ring", "unit_imag",
+                            "check_type", "complex_type"):
                         self.factory[id(n)] = n.name
 
     def explore_paths(self, run, limit=24):
@@ -583,6 +594,18 @@ class Interp:
             return None
         if isinstance(st, ast.If):
             tv = self.expr(st.test, env)
+            if isinstance(tv, ANpBool):
+                tv = ABool()             # value-dependent comparison
+            if isinstance(tv, AArr):
+                if tv.shape == ():
+                    tv = ABool()
+                elif all(d == 1 for d in tv.shape):
+                    tv = ABool()
+                else:
+                    raise ShapeError(
+                        f"`if {ast.unparse(st.test)[:50]}`: the truth value "
+                        f"of an array of shape {tv.shape} is ambiguous "
+                        "(ValueError for arrays of objects)")
             if isinstance(tv, ABool):
                 # a run-time validity guard: one arm only raises -> the
                 # analysis follows the other arm (valid input assumed)
@@ -604,6 +627,13 @@ class Interp:
             t = self.truth(tv)
             return self.block(st.body if t else st.orelse, env)
         if isinstance(st, ast.Pass):
+            return None
+        if isinstance(st, ast.Break):
+            return ("__break__",)
+        if isinstance(st, ast.Continue):
+            return ("__continue__",)
+        if isinstance(st, ast.FunctionDef):
+            env[st.name] = AFunc(st, env, self.stack[-1])
             return None
         if isinstance(st, ast.Raise):
             if st.exc is None:
@@ -646,6 +676,10 @@ class Interp:
             for x in it:
                 self.assign(st.target, x, env)
                 r = self.block(st.body, env)
+                if r == ("__break__",):
+                    break
+                if r == ("__continue__",):
+                    continue
                 if r is not None:
                     return r
             return None
@@ -672,6 +706,9 @@ class Interp:
             if isinstance(base, AObj):
                 self.obj_method(base, "__setitem__",
                                 [self.index(t.slice, env), v], {})
+                return
+            if isinstance(base, dict):
+                base[self.expr(t.slice, env)] = v
                 return
             if isinstance(base, list):
                 i = self.expr(t.slice, env)
@@ -751,6 +788,9 @@ class Interp:
         if isinstance(op, ast.Sub):
             if isinstance(a, int) and isinstance(b, int):
                 return a - b
+        if isinstance(op, ast.Pow) and isinstance(a, int) \
+                and isinstance(b, int) and b >= 0:
+            return a ** b
         if isinstance(op, ast.Mult):
             if isinstance(a, tuple) and isinstance(b, int):
                 return a * b
@@ -839,6 +879,8 @@ class Interp:
                 return f"<np.{e.attr}>"
             if isinstance(e.value, ast.Name) and e.value.id in self.mods \
                     and e.value.id not in env:
+                if e.attr == "SAGE_AVAILABLE":
+                    return False
                 c = self.class_in(e.value.id, e.attr)
                 if c is not None:
                     return AClass(c)
@@ -903,9 +945,38 @@ class Interp:
             if isinstance(v, AObj):
                 return self.obj_method(v, "__getitem__",
                                        [self.index(e.slice, env)], {})
+            if isinstance(v, dict):
+                k = self.expr(e.slice, env)
+                if k not in v:
+                    raise RaiseSim("KeyError", getattr(e, "lineno", None))
+                return v[k]
+            if isinstance(v, list):
+                i = self.expr(e.slice, env)
+                if isinstance(i, int):
+                    return v[i]
             raise Unsupported(f"subscript of {v!r}")
         if isinstance(e, ast.Call):
             return self.callexpr(e, env)
+        if isinstance(e, ast.Lambda):
+            return AFunc(e, env, self.stack[-1])
+        if isinstance(e, ast.Dict):
+            out = {}
+            for k, v in zip(e.keys, e.values):
+                if k is None:
+                    d = self.expr(v, env)
+                    if not isinstance(d, dict):
+                        raise Unsupported("** of a non-dict")
+                    out.update(d)
+                else:
+                    out[self.expr(k, env)] = self.expr(v, env)
+            return out
+        if isinstance(e, ast.IfExp):
+            t = self.expr(e.test, env)
+            if isinstance(t, ABool):
+                raise Unsupported("data-dependent conditional expression")
+            return self.expr(e.body if self.truth(t) else e.orelse, env)
+        if isinstance(e, ast.JoinedStr):
+            return ""
         if isinstance(e, (ast.GeneratorExp, ast.ListComp)) \
                 and len(e.generators) == 1 and not e.generators[0].ifs:
             g = e.generators[0]
@@ -927,6 +998,40 @@ class Interp:
         return isinstance(v, ast.Name) and v.id not in env and (
             v.id in ("np", "scipy", "math", "itertools", "copy")
             or (v.id in self.mods and v.id != ""))
+
+    def _isinstance(self, v, tnode):
+        raise Unsupported(f"isinstance({v!r}, {ast.unparse(tnode)})")
+
+    def call_afunc(self, fv, args, kw):
+        node = fv.node
+        self.stack.append(fv.owner)
+        try:
+            env2 = dict(fv.env)
+            a = node.args
+            params = [p.arg for p in a.args]
+            defaults = dict(zip(params[len(params) - len(a.defaults):],
+                                a.defaults))
+            for i, p in enumerate(params):
+                if i < len(args):
+                    env2[p] = args[i]
+                elif p in kw:
+                    env2[p] = kw.pop(p)
+                elif p in defaults:
+                    env2[p] = self.expr(defaults[p], fv.env)
+                else:
+                    raise Unsupported(f"missing argument {p}")
+            if isinstance(node, ast.Lambda):
+                return self.expr(node.body, env2)
+            self.depth += 1
+            try:
+                r = self.block(node.body, env2)
+            finally:
+                self.depth -= 1
+            if isinstance(r, tuple) and r and r[0] == "__ret__":
+                return r[1]
+            return None
+        finally:
+            self.stack.pop()
 
     def keywords(self, e, env):
         kw = {}
@@ -1070,6 +1175,12 @@ class Interp:
         raise Unsupported(f"array method .{name}")
 
     def compare(self, op, a, b):
+        if isinstance(op, (ast.In, ast.NotIn)):
+            if isinstance(b, (dict, list, tuple, str)) and isinstance(
+                    a, (str, int)):
+                res = a in b
+                return res if isinstance(op, ast.In) else not res
+            raise Unsupported("membership test")
         if isinstance(op, (ast.Is, ast.IsNot)):
             same = (a is None and b is None)
             if a is None or b is None:
@@ -1150,8 +1261,16 @@ class Interp:
                 for a in e.args:
                     self.expr(a, env)
                 return ""
+        if isinstance(e.func, ast.Name) and isinstance(
+                env.get(e.func.id), AFunc):
+            fv0 = env[e.func.id]
+            return self.call_afunc(fv0, [self.expr(a, env) for a in e.args],
+                                   self.keywords(e, env))
         args = [self.expr(a, env) for a in e.args]
         kw = self.keywords(e, env)
+        if name == "isinstance" and len(args) == 2:
+            return False if isinstance(args[0], (AArr, AScal)) else \
+                self._isinstance(args[0], e.args[1])
         if name.startswith("np.") and name not in UFUNCS and args \
                 and isinstance(args[0], ANpScal) and name not in (
                     "np.zeros_like", "np.ones_like", "np.copy", "np.array",
@@ -1208,6 +1327,12 @@ class Interp:
             if len(sh) < 2 or (sh[-1] != sh[-2]):
                 raise ShapeError(f"inverse of a non-square array {sh}")
             return args[0]
+        if (name in ("utils.eigh", "np.linalg.eigh", "eigh")) and args \
+                and isinstance(args[0], AArr):
+            sh = args[0].shape
+            if len(sh) < 2 or (sh[-1] != sh[-2]):
+                raise ShapeError(f"eigenvalues of a non-square array {sh}")
+            return (AArr(sh[:-1]), AArr(sh))
         if (name in ("utils.eig", "np.linalg.eig") or mf == "eig") and args \
                 and isinstance(args[0], AArr):
             sh = args[0].shape
@@ -1238,7 +1363,18 @@ class Interp:
             if kind == "array_like":
                 if isinstance(args[0], AArr):
                     return args[0]
+                if isinstance(args[0], list):
+                    def lshape(x):
+                        if isinstance(x, list):
+                            subs = {lshape(y) for y in x}
+                            if len(subs) > 1:
+                                raise Unsupported("ragged literal")
+                            return (len(x),) + (subs.pop() if subs else ())
+                        return ()
+                    return AArr(lshape(args[0]))
                 raise Unsupported("array_like of a non-array")
+            if kind in ("check_type", "complex_type"):
+                return (None, "<dtype>")
             if kind == "guess_literal_ring":
                 return None
             return AScal()
@@ -1399,6 +1535,26 @@ class Interp:
                     f"np.putmask: values of shape {vals.shape} are cycled "
                     f"over an array of shape {a.shape}")
             return None
+        if name == "np.trace" and isinstance(args[0], AArr):
+            sh = args[0].shape
+            if len(sh) < 2:
+                raise ShapeError(f"trace of an array of shape {sh}")
+            a1 = kw.get("axis1", 0)
+            a2 = kw.get("axis2", 1)
+            ax = _norm_axes((a1, a2), len(sh))
+            out = tuple(d for i, d in enumerate(sh) if i not in ax)
+            return AArr(out) if out else ANpScal()
+        if name in ("scipy.special.binom", "int", "float", "abs"):
+            return AScal() if not (name in ("int", "abs") and isinstance(
+                args[0], int)) else (abs(args[0]) if name == "abs"
+                                     else int(args[0]))
+        if name == "np.diag" and args and isinstance(args[0], (list, AArr)):
+            if isinstance(args[0], list):
+                return AArr((len(args[0]), len(args[0])))
+            sh = args[0].shape
+            if len(sh) == 1:
+                return AArr((sh[0], sh[0]))
+            raise Unsupported("np.diag of a matrix")
         if name == "np.lexsort":
             keys = args[0]
             axis = kw.get("axis", args[1] if len(args) > 1 else -1)
